@@ -521,8 +521,9 @@ func vfRandComposition(r *rand.Rand, n, k int) []int {
 // vfC12Sender: fragmentHandshake over every (body length, MTU).
 func vfC12Sender(res *vfResult) {
 	maxLen := vfPick(300, 1500)
+	type lm struct{ n, mtu int }
+	var pairs []lm
 	for mtu := 1; mtu <= vfPick(64, 200); mtu++ {
-		c := &Conn{maximumTransmissionUnit: mtu}
 		// (long messages at the smallest MTUs too: a certificate chain at MTU 1..4 is hundreds to thousands of fragments)
 		top := maxLen
 		if mtu <= 4 {
@@ -535,6 +536,19 @@ func vfC12Sender(res *vfResult) {
 			if n > maxLen && n%7 == 0 && n%5 != 0 {
 				continue
 			}
+			pairs = append(pairs, lm{n, mtu})
+		}
+	}
+	// messages around and beyond 2^16 bytes (the header's three-byte fields), at ordinary MTUs
+	for _, n := range []int{65535, 65536, 65537, 70001, 131072 + 5} {
+		for _, mtu := range []int{1200, 999} {
+			pairs = append(pairs, lm{n, mtu})
+		}
+	}
+	for _, pr := range pairs {
+		n, mtu := pr.n, pr.mtu
+		c := &Conn{maximumTransmissionUnit: mtu}
+		{
 			body := vfMsgBody(3, n)
 			hs := &handshake.Handshake{
 				Header:  handshake.Header{Type: handshake.TypeFinished, Length: uint32(n), MessageSequence: 3},
